@@ -94,14 +94,18 @@ def routing_records(trace_iter, results, rules_by_job):
             for a in r["after"]:
                 if a in probe_block:
                     to.append(probe_block[a])
+            if r["kind"] == "groupby_dest" and not to:
+                continue
             rules.append({"probe": r["probe"], "kind": r["kind"], "m": r.get("m", 1),
                           "keyspace": r.get("keyspace", r["probe"]), "to": to,
                           "preds": r.get("preds", []), "feedback": bool(r.get("feedback", False))})
         blocks = [{"b": b, "replicas": [{"h": h, "r": rr} for (h, rr) in sorted(reps)]}
                   for b, reps in sorted(replicas.items())]
         out = [{"ev": "job", "id": job, "blocks": blocks, "rules": rules}]
-        rule_probes = {r["probe"] for r in rules}
-        out += [e for e in buf if e["probe"] in rule_probes]
+        rule_probes = {r["probe"] for r in rules if r["kind"] != "groupby_dest"}
+        dest_blocks = {r["to"][0] for r in rules if r["kind"] == "groupby_dest"}
+        out += [e for e in buf if (e["ev"] == "emit" and e["probe"] in rule_probes)
+                or (e["ev"] == "enqd" and e["tb"] in dest_blocks)]
         buf, cur, replicas, probe_block = [], {}, {}, {}
         return out
 
@@ -123,6 +127,14 @@ def routing_records(trace_iter, results, rules_by_job):
             cur[th] = {"ev": "emit", "probe": e["id"], "fb": b, "fh": h, "fr": r, "k": el["k"],
                        "v": small(v) if isinstance(v, int) else 0, "dests": [], "_el": el_str(el)}
         elif ev == "enq":
+            el0 = e["el"]
+            if el0["k"] in ("I", "T"):
+                v0 = el0.get("v")
+                key = v0[0] if isinstance(v0, list) and v0 and isinstance(v0[0], int) else (v0 if isinstance(v0, int) else None)
+                if key is not None:
+                    ep0 = e["to"].split("<")[0]
+                    b0, h0, r0 = (int(x) for x in ep0.split("."))
+                    buf.append({"ev": "enqd", "probe": "", "tb": b0, "th": h0, "tr": r0, "key": small(key)})
             th = e["th"]
             em = cur.get(th)
             if em is not None and em["_el"] == el_str(e["el"]):
